@@ -25,6 +25,8 @@ Definition idiom_select (i : idiom) (d s : str) : option bool :=
               | Some u => Some (lex_le d s && lex_lt s u)
               | None => None
               end
+  (* Python: label.startswith(d) *)
+  | IPyPrefix => Some (is_prefix d s)
   end.
 
-Definition known_idiom (i : idiom) : bool := match i with ILike | ISubstr | IRange => true end.
+Definition known_idiom (i : idiom) : bool := match i with ILike | ISubstr | IRange | IPyPrefix => true end.
